@@ -67,7 +67,7 @@ M("cp_unsorted_mask", "pinned defect: sorted indices filtered with an unsorted m
    "    sorted_t_idx: NDArrayInt = np.argsort(t)[t > 0]\n"))
 M("cp_floor_1e30", "pinned defect: curvature floor 1e-30 (reverse of fix d4f4a94)", ["C08"],
   ("lbfgsb/cauchy.py", "    eps_f_sec = np.finfo(float).eps\n", "    eps_f_sec = 1e-30\n"))
-M("cp_tie_mask", "pinned defect: tied breakpoint reset (reverse of fix 1674fa2)", ["C08"],
+M("cp_tie_mask", "tied breakpoint reset (reverse of fix 1674fa2); equivalent mutant since the tie-test fix fc4f49b: the search no longer stops in the middle of a tie", [],
   ("lbfgsb/cauchy.py", "    x_cp[d != 0] = (x + t_old * d)[d != 0]\n", "    x_cp[t >= t_cur] = (x + t_old * d)[t >= t_cur]\n"))
 M("cp_d_not_zeroed_on_bound", "d = -grad also for variables held at a bound", ["C08"],
   ("lbfgsb/cauchy.py", "    d = np.where(t == 0, 0.0, -grad)\n", "    d = -grad\n"))
@@ -81,7 +81,7 @@ M("cp_fprime_sign", "wrong sign in the f' update", ["C08"],
 M("cp_c_not_advanced", "c not advanced on the last segment", ["C08", "C09"],
   ("lbfgsb/cauchy.py", "    c += delta_t_min * p\n\n    if logger is not None:", "    if logger is not None:"))
 M("cp_strict_break", "break test uses <= (stops at a breakpoint one segment early on ties)", ["C08"],
-  ("lbfgsb/cauchy.py", "        if delta_t_min < delta_t:\n            is_gpc_found = True", "        if delta_t_min <= delta_t:\n            is_gpc_found = True"))
+  ("lbfgsb/cauchy.py", "        if delta_t > 0 and delta_t_min < delta_t:\n            is_gpc_found = True", "        if delta_t > 0 and delta_t_min <= delta_t:\n            is_gpc_found = True"))
 M("cp_wrong_bound_lower", "breakpoints of decreasing variables computed from the upper bound", ["C08"],
   ("lbfgsb/cauchy.py", "        grad[mask] < 0, (x - ub)[mask] / grad[mask], (x - lb)[mask] / grad[mask]\n",
    "        grad[mask] < 0, (x - ub)[mask] / grad[mask], (x - ub)[mask] / grad[mask]\n"))
@@ -253,3 +253,5 @@ M("iso_lowest_x_global", "line search keeps its best trial in a module-level var
   ("lbfgsb/linesearch.py", "    best_stp: Optional[float] = None\n    best_f: float = f0\n", "    global _BEST\n    best_stp: Optional[float] = None\n    best_f: float = f0\n    _BEST = [None, f0]\n"),
   ("lbfgsb/linesearch.py", "            if f_m1 < best_f:\n                best_f = f_m1\n                best_stp = steplength\n", "            if f_m1 < _BEST[1]:\n                _BEST[1] = f_m1\n                _BEST[0] = steplength\n            best_f, best_stp = _BEST[1], _BEST[0]\n"),
   ("lbfgsb/linesearch.py", "def max_allowed_steplength(\n", "_BEST = [None, 0.0]\n\n\ndef max_allowed_steplength(\n"))
+M("cp_tie_test", "pinned defect: minimiser test on a partially fixed tie (reverse of the tie-test fix)", ["C08"],
+  ("lbfgsb/cauchy.py", "        if delta_t > 0 and delta_t_min < delta_t:\n", "        if delta_t_min < delta_t:\n"))
